@@ -1309,8 +1309,8 @@ impl fmt::Display for Type2<'_> {
     match self {
       Type2::IntValue { value, .. } => write!(f, "{}", value),
       Type2::UintValue { value, .. } => write!(f, "{}", value),
-      Type2::FloatValue { value, .. } => write!(f, "{}", value),
-      Type2::TextValue { value, .. } => write!(f, "\"{}\"", value),
+      Type2::FloatValue { value, .. } => crate::token::fmt_float_literal(f, *value),
+      Type2::TextValue { value, .. } => crate::token::fmt_text_literal(f, value),
       Type2::UTF8ByteString { value, .. } => write!(
         f,
         "'{}'",
